@@ -178,6 +178,8 @@ class Env:
         info = self.cls(clsqual)
         arr = z3.Const('fld_%s_%s' % (info.name, attr), z3.ArraySort(IntSort, kind.sort()))
         self.ip.state.fields[(info.name, attr)] = (arr, kind)
+        if kind.ty == 'bytes':
+            self.ip.state.field_len[(info.name, attr)] = z3.Const('fldlen_%s_%s' % (info.name, attr), z3.ArraySort(IntSort, IntSort))
         if inv is not None:
             self.ip.state.field_inv[(info.name, attr)] = inv
 
